@@ -82,6 +82,12 @@ const EXTREME_TEMPLATES: &[&str] = &[
     "fn f(x: Length) = x^(0^A)\nf(2 m)",
     "unit foo = meter^((1 - 1)^(A))",
     "dimension Q = Length^(A^B)",
+    "fn wf(x: Scalar) = y where y = A m and m = x\nwf(B)",
+    "fn wf(x) = x * s where s = A s\nwf(B)",
+    "fn wf(x: Scalar) = y + g where y = g and g = x * A g\nwf(B)",
+    "fn tf<T>(x: T) -> T = x + x\ntf(\"a\")\ntf(A)",
+    "fn tf<T>(x: T) = x * A\ntf(true)",
+    "fn tf<T, U>(x: T, y: U) = -x / y\ntf([B], A)",
     "fn now() -> DateTime\nnow() - now()",
     "fn datetime(input: String) -> DateTime\ndatetime(\"2000-01-01 00:00:00 UTC\") - datetime(\"2001-01-01 00:00:00 UTC\")",
 ];
@@ -440,6 +446,21 @@ fn function_body_mentions_ans(text: &str) -> bool {
     })
 }
 
+/// Does the text define a function with a type parameter that has no `: Dim` bound?
+fn has_unbounded_type_parameter(text: &str) -> bool {
+    let mut rest = text;
+    while let Some(i) = rest.find("fn ") {
+        rest = &rest[i + 3..];
+        let head: &str = rest.split(['(', '\n', '=']).next().unwrap_or("");
+        if let (Some(a), Some(b)) = (head.find('<'), head.rfind('>')) {
+            if a < b && head[a + 1..b].split(',').any(|p| !p.trim().is_empty() && !p.contains(':')) {
+                return true;
+            }
+        }
+    }
+    false
+}
+
 fn panic_signature(text: &str, loc: &str, msg: &str) -> String {
     let file = loc.rsplit_once(':').map(|(f, _)| f).unwrap_or(loc);
     if file.ends_with("vm.rs") && text.len() > 30_000 && text.contains("if ") && !msg.contains("constants.len()") {
@@ -454,6 +475,11 @@ fn panic_signature(text: &str, loc: &str, msg: &str) -> String {
     }
     if file.ends_with("vm.rs") && msg.starts_with("Expected ") && function_body_mentions_ans(text) {
         return "panic:ans-in-function-body:value of another type on the VM stack".to_string();
+    }
+    if file.ends_with("vm.rs") && msg.starts_with("Expected quantity") && has_unbounded_type_parameter(text) {
+        // `fn f<T>(x: T) = x + x`: arithmetic on a parameter whose type is a bare type parameter
+        // without `: Dim` is accepted, and so is a call with a string, boolean or list
+        return "panic:unbounded-type-parameter-in-arithmetic:non-quantity on the VM stack".to_string();
     }
     if msg.contains("IncompatibleUnits(") && has_polymorphic_literal_with_unit(text) {
         // one root cause, many unwrap sites (library functions and VM operations that rely on
@@ -565,7 +591,7 @@ fn check(c: &(G, u8), st: &mut Stats) -> CheckResult {
 fn run(cfg: &Cfg) -> Report {
     let mut rep = Report::new(
         cfg,
-        "proptest inputs of eight kinds: calls of every public prelude function (list read from the session, random-number functions excepted) with arguments drawn from typed pools of edge values (non-ASCII strings, 0/NaN/inf, huge, tiny and negative numbers, quantities, empty/nested/mixed lists, function names, extreme dates; one argument in eight ignores the declared type), 1-4 characters from an alphabet read from numbat's tokenizer and parser sources plus the whole Unicode super/subscript block appended to 14 stems, token soup over a 190-token vocabulary (numbers incl. extreme ones, units, all operator spellings, brackets, keywords, library functions, type syntax), 1-3 token mutations (delete, duplicate, swap, replace by an extreme value or a vocabulary token) of 1-5 consecutive lines of the example and module corpus read from /repo, 40 templates with extreme values substituted (huge exponents, factorial chains, overflowing integers, NaN/inf, format specifiers), corrupted generated programs, bounded nesting/operator runs, and random bytes; each in a fresh, a prelude, or a prelude-plus-definitions session; plus the complete enumeration of every one- and two-character continuation (same alphabet) after an operand. Oracle: interpretation returns (result or error); on error every diagnostic renders through codespan term::emit; no panic (debug assertions and overflow checks are on in this build); the session accepts a further input; an input without `fn` that stays within the harness's VM step budget uses less than 20 s of CPU time. Panics are keyed by file + message (not line). non-trivial = >= 4 tokens and the input reached the type checker or ran; distinct = input text",
+        "proptest inputs of eight kinds: calls of every public prelude function (list read from the session, random-number functions excepted) with arguments drawn from typed pools of edge values (non-ASCII strings, 0/NaN/inf, huge, tiny and negative numbers, quantities, empty/nested/mixed lists, function names, extreme dates; one argument in eight ignores the declared type), 1-4 characters from an alphabet read from numbat's tokenizer and parser sources plus the whole Unicode super/subscript block appended to 14 stems, token soup over a 190-token vocabulary (numbers incl. extreme ones, units, all operator spellings, brackets, keywords, library functions, type syntax), 1-3 token mutations (delete, duplicate, swap, replace by an extreme value or a vocabulary token) of 1-5 consecutive lines of the example and module corpus read from /repo, 58 templates with extreme values substituted (huge exponents, factorial chains, overflowing integers, NaN/inf, format specifiers), corrupted generated programs, bounded nesting/operator runs, and random bytes; each in a fresh, a prelude, or a prelude-plus-definitions session; plus the complete enumeration of every one- and two-character continuation (same alphabet) after an operand. Oracle: interpretation returns (result or error); on error every diagnostic renders through codespan term::emit; no panic (debug assertions and overflow checks are on in this build); the session accepts a further input; an input without `fn` that stays within the harness's VM step budget uses less than 20 s of CPU time. Panics are keyed by file + message (not line). non-trivial = >= 4 tokens and the input reached the type checker or ran; distinct = input text",
     );
     let cases = cfg.tier.pick(1500u32, 100000u32);
     rep.absorb(run_proptest(
